@@ -208,9 +208,9 @@ var (
 	muLR       = &Mu{Fields: swapMap("Left", "Right"), Names: swapMap("Left", "Right", "rotateLeft", "rotateRight", "left", "right")}
 	muLRSign   = &Mu{Fields: swapMap("Left", "Right"), Names: swapMap("Left", "Right", "rotateLeft", "rotateRight"), FlipSign: true}
 	muAVLSign  = &Mu{FlipIndex: "Children", FlipSign: true, NegArg: map[string]bool{"putFix": true, "removeFix": true}}
-	muAVLArg   = &Mu{FlipArg: map[string]bool{"bottom": true, "walk1": true}}
+	muAVLArg   = &Mu{FlipIndex: "Children", FlipArg: map[string]bool{"bottom": true, "walk1": true}} // direction argument or, written out, the child index
 	muIterTree = &Mu{Fields: swapMap("Left", "Right"), Names: swapMap("Left", "Right", "Next", "Prev", "Begin", "End"), Consts: swapMap("0:position", "2:position"),
-		FlipArg: map[string]bool{"bottom": true, "walk1": true}}
+		FlipIndex: "Children", FlipArg: map[string]bool{"bottom": true, "walk1": true}}
 	muFirstLast = &Mu{Names: swapMap("Begin", "End", "Next", "Prev", "First", "Last")}
 	muNextPrevTo = &Mu{Names: swapMap("Next", "Prev", "NextTo", "PrevTo")}
 	muNames    = &Mu{Names: swapMap("Left", "Right", "left", "right")}
